@@ -3,6 +3,9 @@
 
   tools/campaign.py seeds   <round>     /tmp/seeds<round>/prompt_Cxx.txt,     worktrees /tmp/wt/S<round>_xx
   tools/campaign.py neutral <round>     /tmp/refactors<round>/prompt_Cxx.txt, worktrees /tmp/wt/N<round>_xx
+  tools/campaign.py confirm seeds|neutral <round>    16-way: patch applies to /repo HEAD, the 65 baseline tests pass with it, and (seeds) the demo
+                                        fails with the patch and passes without it; result in <dir>/confirm.json
+  tools/campaign.py import  seeds|neutral <round> [name ...]   copy confirmed variants into /verif/seeded/Cxx-<e,f> or /verif/neutral/Cxx-r<n>
   tools/campaign.py clean               remove every scratch worktree under /tmp/wt
 
 Results are evaluated with tools/regress.py --from <dir> seeded|neutral, confirmed with tools/seeded.py confirm / the baseline tests, and only
@@ -82,7 +85,105 @@ def sh(cmd):
     return subprocess.run(cmd, shell=True, capture_output=True, text=True)
 
 
+VERIF = os.path.dirname(os.path.dirname(os.path.abspath(__file__)))
+BASELINE = json.load(open("/root/.vp/BASELINE.json"))["stable_pass"]
+LETTERS = {3: {"a": "e", "b": "f"}, 4: {"a": "g", "b": "h"}}          # seeds: round -> variant -> suffix under /verif/seeded
+NUMBERS = {3: {"r1": "r8", "r2": "r9", "r3": "r10"}, 4: {"r1": "r11", "r2": "r12", "r3": "r13"}}
+
+
+def variants(root):
+    for pid in sorted(os.listdir(root)):
+        d0 = os.path.join(root, pid)
+        if os.path.isdir(d0):
+            for var in sorted(os.listdir(d0)):
+                if os.path.exists(os.path.join(d0, var, "patch.diff")):
+                    yield pid, var, os.path.join(d0, var)
+
+
+def tests_pass(d):
+    r = sh(f"cd {d} && /venv/bin/python -m pytest -q -p no:cacheprovider -rA 2>&1 | grep -E '^(PASSED|FAILED|ERROR)'")
+    passed = set()
+    for line in r.stdout.splitlines():
+        if line.startswith("PASSED"):
+            mod, _, rest = line.split()[1].partition("::")
+            passed.add(mod[:-3].replace("/", ".") + "." + rest)
+    return [t for t in BASELINE if t not in passed]
+
+
+def confirm_one(job):
+    kind, pid, var, d = job
+    w = f"/tmp/cf/{pid}-{var}"
+    sh(f"rm -rf {w} && mkdir -p {w} && git -C /repo archive HEAD | tar -x -C {w}")
+    res = {"name": f"{pid}-{var}", "dir": d}
+    if kind == "seeds":
+        demo = os.path.join(d, "demo.py")
+        res["demo_pristine_rc"] = sh(f"cd {w} && PYTHONPATH={w} timeout 300 /venv/bin/python {demo}").returncode if os.path.exists(demo) else None
+    r = sh(f"cd {w} && git apply --whitespace=nowarn {d}/patch.diff")
+    res["applies"] = r.returncode == 0
+    if res["applies"]:
+        res["tests_missing"] = tests_pass(w)
+        if kind == "seeds" and os.path.exists(os.path.join(d, "demo.py")):
+            res["demo_patched_rc"] = sh(f"cd {w} && PYTHONPATH={w} timeout 300 /venv/bin/python {d}/demo.py").returncode
+    sh(f"rm -rf {w}")
+    res["confirmed"] = bool(res["applies"] and not res.get("tests_missing") and
+                            (kind != "seeds" or (res.get("demo_pristine_rc") == 0 and res.get("demo_patched_rc") not in (0, None))))
+    return res
+
+
+def confirm(kind, rnd):
+    from concurrent.futures import ThreadPoolExecutor
+    root = f"/tmp/{'seeds' if kind == 'seeds' else 'refactors'}{rnd}"
+    jobs = [(kind, pid, var, d) for pid, var, d in variants(root)]
+    with ThreadPoolExecutor(16) as ex:
+        out = list(ex.map(confirm_one, jobs))
+    sh("rm -rf /tmp/cf")
+    json.dump(out, open(f"{root}/confirm.json", "w"), indent=1)
+    for r in out:
+        if not r["confirmed"]:
+            print("NOT confirmed:", {k: v for k, v in r.items() if k != "dir"})
+    print(f"{sum(r['confirmed'] for r in out)}/{len(out)} confirmed")
+    return 0
+
+
+def do_import(kind, rnd, only):
+    import shutil
+    root = f"/tmp/{'seeds' if kind == 'seeds' else 'refactors'}{rnd}"
+    conf = {r["name"]: r for r in json.load(open(f"{root}/confirm.json"))}
+    n = 0
+    for pid, var, d in variants(root):
+        name = f"{pid}-{var}"
+        if not conf.get(name, {}).get("confirmed") or (only and name not in only and pid not in only):
+            continue
+        suffix = (LETTERS if kind == "seeds" else NUMBERS)[rnd][var]
+        dest = os.path.join(VERIF, "seeded" if kind == "seeds" else "neutral", f"{pid}-{suffix}")
+        os.makedirs(dest, exist_ok=True)
+        for f in ("patch.diff", "demo.py", "notes.md"):
+            if os.path.exists(os.path.join(d, f)):
+                shutil.copy(os.path.join(d, f), os.path.join(dest, f))
+        c = conf[name]
+        if kind == "seeds":
+            meta = {"property": pid, "round": rnd,
+                    "origin": f"independent sub-agent (round {rnd}) given only the property text and a scratch worktree",
+                    "confirmed": {"ran": ["git apply patch.diff on a copy of /repo HEAD", "pytest baseline (65 stable tests still pass)",
+                                          "demo.py fails with the patch", "demo.py passes without it"],
+                                  "demo_pristine_rc": c["demo_pristine_rc"], "demo_patched_rc": c["demo_patched_rc"], "tests_pass_with_patch": True}}
+            old = os.path.join(dest, "meta.json")
+            if os.path.exists(old):
+                meta = {**json.load(open(old)), **meta}
+        else:
+            meta = {"kind": f"behaviour-preserving refactoring, round {rnd} (independent sub-agent with its own equivalence check; "
+                            "baseline tests pass at /repo HEAD)", "written_for": pid, "round": rnd}
+        json.dump(meta, open(os.path.join(dest, "meta.json"), "w"), indent=1)
+        n += 1
+    print("imported", n)
+    return 0
+
+
 def main(argv):
+    if argv[:1] == ["confirm"]:
+        return confirm(argv[1], int(argv[2]))
+    if argv[:1] == ["import"]:
+        return do_import(argv[1], int(argv[2]), set(argv[3:]))
     if argv[:1] == ["clean"]:
         for line in sh("git -C /repo worktree list --porcelain").stdout.splitlines():
             if line.startswith("worktree /tmp/"):
